@@ -12,22 +12,38 @@
 //!       address-space limit (RLIMIT_AS) of M MiB; prints `RESULT <kind> <accounting before> <after> <VmPeak kib before> <after> <detail>`
 use hxlib::*;
 
-const OPS: &[&str] = &["array_int", "array_float", "array_bool", "array_obj", "vec_push", "vec_reserve", "manual_alloc",
-                       "bytes_alloc", "string_repeat", "pad_left", "pad_right", "concat_double", "vec_new_lit", "closures"];
+const OPS: &[&str] = &["array_int", "array_float", "array_bool", "array_obj",
+                       "vec_push", "vec_push_float", "vec_push_bool", "vec_push_obj",
+                       "vec_reserve", "vec_reserve_float", "vec_reserve_bool", "vec_reserve_obj",
+                       "manual_alloc", "manual_reuse", "bytes_alloc",
+                       "string_repeat", "string_repeat_mb", "pad_left", "pad_right", "pad_left_mb", "pad_right_mb",
+                       "concat_double", "vec_new_lit", "closures"];
 
 /// (prelude, operation input).  The operation input is the same text for every size: the size is the
 /// global `n` set by the prelude, so that the compiled code (charged to the heap) is identical and
 /// accounting deltas are comparable between sizes.
 fn program(op: &str, n: i128) -> Option<(String, String)> {
     // every global is used in the prelude itself: at -O2 an unused top-level `let` is deleted and later inputs would not compile
-    let pre = format!("let mut n = {}\nlet mut sx = \"0123456789abcdef\"\nlet mut used = 0\nused = sx.len()\nused = n\nused\n", n);
+    // pc: a three-byte pad character, se: a six-byte / two-character repeat unit
+    let pre = format!("let mut n = {}\nlet mut sx = \"0123456789abcdef\"\nlet mut pc = \"€\"\nlet mut se = \"€€\"\nlet mut used = 0\nused = sx.len() + pc.len() + se.len()\nused = n\nused\n", n);
     let body = match op {
         "array_int" => "let a = Array<Int>(n)\nused = a.len()\nused\n",
         "array_float" => "let a = Array<Float>(n)\nused = a.len()\nused\n",
         "array_bool" => "let a = Array<Bool>(n)\nused = a.len()\nused\n",
         "array_obj" => "let a = Array(n)\nused = a.len()\nused\n",
         "vec_push" => "let v = Vec<Int>[1]\nlet mut i = 0\nwhile i < n {\n  v.push(i)\n  i = i + 1\n}\nused = v.len()\nused\n",
+        "vec_push_float" => "let v = Vec<Float>[1.5]\nlet mut i = 0\nwhile i < n {\n  v.push(2.5)\n  i = i + 1\n}\nused = v.len()\nused\n",
+        "vec_push_bool" => "let v = Vec<Bool>[true]\nlet mut i = 0\nwhile i < n {\n  v.push(true)\n  i = i + 1\n}\nused = v.len()\nused\n",
+        "vec_push_obj" => "let v = Vec[sx]\nlet mut i = 0\nwhile i < n {\n  v.push(sx)\n  i = i + 1\n}\nused = v.len()\nused\n",
         "vec_reserve" => "let v = Vec<Int>[1]\nv.reserve(n)\nused = v.capacity()\nused\n",
+        "vec_reserve_float" => "let v = Vec<Float>[1.5]\nv.reserve(n)\nused = v.capacity()\nused\n",
+        "vec_reserve_bool" => "let v = Vec<Bool>[true]\nv.reserve(n)\nused = v.capacity()\nused\n",
+        "vec_reserve_obj" => "let v = Vec[sx]\nv.reserve(n)\nused = v.capacity()\nused\n",
+        // the second allocation lands in the slot the free() has just released
+        "manual_reuse" => "let a = alloc(n)\nfree(a)\nlet b = alloc(n)\nlet c = alloc(n)\nused = b + c\nused\n",
+        "string_repeat_mb" => "let s = se.repeat(n)\nused = s.len()\nused\n",
+        "pad_left_mb" => "let s = sx.pad_left(n, pc)\nused = s.len()\nused\n",
+        "pad_right_mb" => "let s = sx.pad_right(n, pc)\nused = s.len()\nused\n",
         "manual_alloc" => "let p = alloc(n)\nused = p\nused\n",
         "bytes_alloc" => "needs std.bytes\nlet b = bytes.alloc(n)\nused = bytes.size(b)\nused\n",
         "string_repeat" => "let s = sx.repeat(n)\nused = s.len()\nused\n",
@@ -136,24 +152,30 @@ fn runner_esc(s: &str) -> String { s.replace('\t', " ").replace('\n', " ") }
 fn sizes_for(op: &str, limit: u64, rng: &mut Rng, random: bool) -> Vec<i128> {
     let l = limit as i128;
     // bytes per unit of `n` for the operation
-    let unit: i128 = match op { "array_bool" | "bytes_alloc" | "pad_left" | "pad_right" => 1, "string_repeat" => 16, _ => 8 };
+    let unit: i128 = match op {
+        "array_bool" | "bytes_alloc" | "pad_left" | "pad_right" | "vec_reserve_bool" => 1,
+        "pad_left_mb" | "pad_right_mb" => 3, "string_repeat_mb" => 6, "string_repeat" => 16, "manual_reuse" => 16, _ => 8 };
     if op == "concat_double" { return if random { vec![rng.range_i64(0, 24) as i128] } else { vec![-1, 0, 1, 10, 15, 16, 17, 20, 30] }; }
-    if op == "vec_push" || op == "vec_new_lit" || op == "closures" {
-        let per: i128 = if op == "vec_push" { 8 } else { 64 };
-        return if random { vec![rng.range_i64(0, (2 * l / per) as i64) as i128] } else { vec![-1, 0, 1, 100, l / per / 4, l / per, 2 * l / per] };
+    if op.starts_with("vec_push") || op == "vec_new_lit" || op == "closures" {
+        let per: i128 = if op == "vec_push_bool" { 1 } else if op.starts_with("vec_push") { 8 } else { 64 };
+        // pushes up to and beyond the limit: the amortised doubling stops fitting, the exact fallback takes over, then OutOfMemory
+        return if random { vec![rng.range_i64(0, (2 * l / per) as i64) as i128] }
+               else { vec![-1, 0, 1, 100, l / per / 4, l / per / 2 + 1000, 3 * l / per / 4, l / per - 20_000 / per, l / per, 2 * l / per] };
     }
     if random {
-        return vec![match rng.below(6) {
+        return vec![match rng.below(7) {
             0 => rng.range_i64(-5, 5) as i128,
             1 => l / unit + rng.range_i64(-200, 200) as i128,
             2 => rng.range_i64(0, (l / unit) as i64) as i128,
             3 => (l - 700_000).max(0) / unit + rng.range_i64(-3000, 3000) as i128,
             4 => (1i128 << rng.range_i64(20, 46)) + rng.range_i64(-2, 2) as i128,
+            // between limit/unit and limit: a multi-byte unit makes the result larger than the count suggests
+            5 => rng.range_i64((l / unit) as i64, l as i64) as i128,
             _ => -(1i128 << rng.range_i64(1, 46)),
         }];
     }
     vec![-1, 0, 1, 2, 1000, l / unit / 2, l / unit - 100_000 / unit, l / unit - 1, l / unit, l / unit + 1, 2 * l / unit,
-         1 << 31, 100_000_000_000, (1 << 47) - 1, -(1 << 47)]
+         l / 2, l - 200_000, l, 1 << 31, 100_000_000_000, (1 << 47) - 1, -(1 << 47)]
 }
 
 fn main() {
@@ -190,7 +212,7 @@ fn main() {
             for (li, &limit) in limits.iter().enumerate() {
                 for s in sizes_for(op, limit, &mut rng, false) {
                     // the structured grid runs at every limit for the boundary sizes; the long-running loops only at the smallest
-                    if li > 0 && matches!(*op, "vec_push" | "vec_new_lit" | "closures") { continue; }
+                    if li > 0 && (op.starts_with("vec_push") || matches!(*op, "vec_new_lit" | "closures")) { continue; }
                     for &opt in &opts { cases.push(Case { op: op.to_string(), size: s, limit, opt }); }
                 }
             }
@@ -198,7 +220,7 @@ fn main() {
         for _ in 0..random {
             let op = *rng.pick(OPS);
             if let Some(o) = &only { if o != op { continue; } }
-            let limit = if matches!(op, "vec_push" | "vec_new_lit" | "closures") { limits[0] } else { *rng.pick(&limits) };
+            let limit = if op.starts_with("vec_push") || matches!(op, "vec_new_lit" | "closures") { limits[0] } else { *rng.pick(&limits) };
             let s = sizes_for(op, limit, &mut rng, true)[0];
             let opt = *rng.pick(&opts);
             cases.push(Case { op: op.to_string(), size: s, limit, opt });
@@ -227,8 +249,11 @@ fn main() {
 fn coq_op(op: &str) -> String {
     match op {
         "array_int" => "OArray 8".into(), "array_float" => "OArray 8".into(), "array_bool" => "OArray 1".into(), "array_obj" => "OArray 8".into(),
-        "vec_push" => "OVecPush".into(), "vec_reserve" => "OVecReserve".into(), "manual_alloc" => "OManual".into(),
-        "bytes_alloc" => "OBytes".into(), "string_repeat" => "ORepeat 16".into(), "pad_left" => "OPad 16".into(), "pad_right" => "OPad 16".into(),
+        "vec_push" | "vec_push_float" | "vec_push_obj" => "OVecPush 8".into(), "vec_push_bool" => "OVecPush 1".into(),
+        "vec_reserve" | "vec_reserve_float" | "vec_reserve_obj" => "OVecReserve 8".into(), "vec_reserve_bool" => "OVecReserve 1".into(),
+        "manual_alloc" => "OManual".into(), "manual_reuse" => "OManualReuse".into(),
+        "bytes_alloc" => "OBytes".into(), "string_repeat" => "ORepeat 16".into(), "string_repeat_mb" => "ORepeat 6".into(),
+        "pad_left" | "pad_right" => "OPad 16 16 1".into(), "pad_left_mb" | "pad_right_mb" => "OPad 16 16 3".into(),
         "concat_double" => "OConcatDouble 16".into(), "vec_new_lit" => "OVecLits".into(), "closures" => "OClosures".into(), o => format!("OUnknown_{}", o),
     }
 }
